@@ -91,7 +91,14 @@ class FunTerm:
                     and node.func.value.id in tr.env and len(node.args) in (1, 2):
                 return tm.atom_poly(("call", ".get", (tr.env[node.func.value.id],) + tuple(tr.tr(a) for a in node.args)))
             return None
-        t = tm.Translator(self.env, hook)
+        env = self.env
+        running = {nm for f in self.frames for nm in f.pending}
+        if running:
+            env = dict(self.env)
+            for nm in running:
+                # the value of an accumulator while its loop is still running is not its initial value
+                env[nm] = tm.atom_poly(("running", nm, self.env.get(nm, tm.sym(nm))))
+        t = tm.Translator(env, hook)
         t._base_level = len(self.frames)
         return t
 
@@ -211,7 +218,16 @@ class FunTerm:
 
     def assign(self, t: ast.AST, value: ast.AST) -> None:
         if varname(t) is not None:
-            self.define(varname(t), self.tr(value))
+            nm = varname(t)
+            if isinstance(value, ast.BinOp) and isinstance(value.op, (ast.Add, ast.Mult, ast.Sub)) and nm in self.env \
+                    and self.defdepth.get(nm, 0) < self.cur_depth():
+                for a, b, flipped in ((value.left, value.right, False), (value.right, value.left, True)):
+                    if varname(a) == nm and not any(varname(x) == nm for x in ast.walk(b) if isinstance(x, (ast.Name, ast.Attribute))):
+                        if flipped and isinstance(value.op, ast.Sub):
+                            continue
+                        self.augassign(ast.AugAssign(target=t, op=value.op, value=b))
+                        return
+            self.define(nm, self.tr(value))
         elif isinstance(t, (ast.Tuple, ast.List)) and all(isinstance(e, ast.Name) for e in t.elts):
             tv = self.tr(value)
             for k, e in enumerate(t.elts):
@@ -221,7 +237,7 @@ class FunTerm:
             key = self.tr(t.slice)
             if nm not in self.env:
                 if "." in nm:
-                    self.env[nm] = tm.sym(nm)
+                    self.env[nm] = self.translator().tr(ast.parse(nm, mode="eval").body)
                     self.defdepth[nm] = 0
                 else:
                     return
@@ -292,7 +308,7 @@ class FunTerm:
         elif isinstance(t, ast.Subscript) and varname(t.value) is not None and (varname(t.value) in self.env or "." in varname(t.value)):
             nm = varname(t.value)
             if nm not in self.env:
-                self.env[nm] = tm.sym(nm)
+                self.env[nm] = self.translator().tr(ast.parse(nm, mode="eval").body)
                 self.defdepth[nm] = 0
             key = self.tr(t.slice)
             v = self.tr(st.value)
@@ -413,14 +429,23 @@ class FunTerm:
     def for_loop(self, st: ast.For) -> None:
         tr0 = self.translator()
         level = self.fresh_level()
-        dom = tr0.domain(st.iter)
+        dom, elem, level = tr0.domain_elem(st.iter, level)
         f = Frame(dom, level)
         outer_conds = self.conds()
         saved = {}
-        for nm, v in tr0.bind(st.target, level).items():
+        bound = tr0.bind(st.target, level, elem)
+        for nm, v in bound.items():
             saved[nm] = (self.env.get(nm), self.defdepth.get(nm))
+        # accumulators of this loop: names defined outside that the body writes into; while the loop runs
+        # their value is not the initial one
+        for nm in _written_names(st.body):
+            if "." in nm and nm not in self.env:
+                self.env[nm] = tr0.tr(ast.parse(nm, mode="eval").body)
+                self.defdepth[nm] = 0
+            if nm in self.env and nm not in bound:
+                f.pending.setdefault(nm, [])
         self.frames.append(f)
-        for nm, v in tr0.bind(st.target, level).items():
+        for nm, v in bound.items():
             self.env[nm] = v
             self.defdepth[nm] = self.cur_depth()
         names_before = set(self.env)
@@ -438,6 +463,8 @@ class FunTerm:
             self.block(st.orelse)
         # close the frame: fold the contributions
         for nm, contribs in f.pending.items():
+            if not contribs:
+                continue
             ops = {c[0] for c in contribs}
             if len(ops) != 1:
                 self.env[nm] = OPQ(f"mixed accumulation into {nm}")
@@ -514,6 +541,31 @@ class FunTerm:
         for f in self.frames:
             lv = max(lv, f.level + 1)
         return lv
+
+
+def _written_names(body) -> set:
+    """Tracked variables a loop body accumulates into (subscript / augmented stores, append/add calls);
+    plain re-binding `x = ...` makes x a loop-local temporary instead."""
+    out, rebound = set(), set()
+    for st in body:
+        for n in ast.walk(st):
+            if isinstance(n, ast.Assign):
+                for t in n.targets:
+                    if isinstance(t, ast.Subscript) and varname(t.value):
+                        out.add(varname(t.value))
+                    elif varname(t):
+                        v = n.value
+                        own = isinstance(v, ast.BinOp) and (varname(v.left) == varname(t) or varname(v.right) == varname(t))
+                        (out if own else rebound).add(varname(t))
+            elif isinstance(n, ast.AugAssign):
+                t = n.target
+                if isinstance(t, ast.Subscript) and varname(t.value):
+                    out.add(varname(t.value))
+                elif varname(t):
+                    out.add(varname(t))
+            elif isinstance(n, ast.Call) and isinstance(n.func, ast.Attribute) and n.func.attr in ("append", "add", "extend", "update") and varname(n.func.value):
+                out.add(varname(n.func.value))
+    return out - rebound
 
 
 def txt_is_empty_dict(p: tuple) -> bool:
